@@ -169,16 +169,43 @@ fn first_line(s: &str) -> String {
     s.lines().next().unwrap_or("").chars().take(200).collect()
 }
 
-/// Classify a mismatch for the violation signature.  Generated designs differ
-/// from seed to seed, so the signature is the *kind* of divergence plus the
-/// design's mode/feature class is not stable enough; genuine defect classes
-/// found during triage get a hand-written detector in `classify_known` keyed on
-/// the emitted SV text of the reduced witness shape.
-fn signature(o: &CfgOut, d: &Design, i: u64) -> String {
-    if let Some(k) = crate::triage::classify(&d.text, &o.sv) {
-        return format!("trace-mismatch:{k}");
+/// Attribute a mismatch to known defect classes (see `triage`): returns the class names whose
+/// neutralising rewrite — alone, or cumulatively in order — makes the design agree again.
+fn attribute(d: &Design, stim: &Stimulus, cfg: &str, codes: &[String]) -> Vec<String> {
+    let Some((c, r)) = cfg.split_once('/') else { return vec![] };
+    let rerun = |text: &str| -> bool {
+        let mut d2 = d.clone();
+        d2.text = text.to_string();
+        let (s2, c, r, allowed) = (stim.clone(), c.to_string(), r.to_string(), codes.to_vec());
+        let _ = &allowed;
+        match fresh_thread(STACK_64M, move || run_config(&d2, &s2, &c, &r, false, None)) {
+            Ok(o) => o.status == "ok" && o.cmp.mismatch.is_none() && o.cmp.compared > 0,
+            Err(_) => false,
+        }
+    };
+    let classes = crate::triage::classes();
+    for k in &classes {
+        let t = (k.rewrite)(&d.text);
+        if t != d.text && rerun(&t) {
+            return vec![k.name.to_string()];
+        }
     }
-    format!("trace-mismatch:case{i}:{}", o.cfg)
+    // several independent defects in one design: apply the rewrites cumulatively
+    let mut text = d.text.clone();
+    let mut used = vec![];
+    for k in &classes {
+        let t = (k.rewrite)(&text);
+        if t != text {
+            text = t;
+            if !used.contains(&k.name.to_string()) {
+                used.push(k.name.to_string());
+            }
+            if used.len() >= 2 && rerun(&text) {
+                return used;
+            }
+        }
+    }
+    vec![]
 }
 
 fn report(run: &Run, i: u64, cycles: usize, o: CaseOut) {
@@ -211,7 +238,10 @@ fn report(run: &Run, i: u64, cycles: usize, o: CaseOut) {
                             run.seen("svref_constructs", k);
                         }
                         if let Some(m) = &c.cmp.mismatch {
-                            let sig = signature(c, d, i);
+                            let classes = attribute(d, &o.stim, &c.cfg, &c.codes);
+                            let sigs: Vec<String> = if classes.is_empty() { vec![format!("trace-mismatch:case{i}:{}", c.cfg)] } else { classes.iter().map(|k| format!("trace-mismatch:{k}")).collect() };
+                            run.count(if classes.is_empty() { "mismatches_unattributed" } else { "mismatches_attributed_to_known_class" }, 1);
+                            for sig in sigs {
                             run.violation(
                                 &sig,
                                 &format!(
@@ -221,6 +251,7 @@ fn report(run: &Run, i: u64, cycles: usize, o: CaseOut) {
                                 json!({"case_index": i, "cycles": cycles, "mode": o.mode, "config": c.cfg, "mismatch": m, "design": d.text, "sv": c.sv,
                                        "stimulus": drive::stim_to_json(&o.stim), "codes": c.codes}),
                             );
+                            }
                         }
                     }
                     "gate" => {
